@@ -14,11 +14,27 @@ static QAD *qad_ref(QAD *d) { if (REF(d) != (uint32_t)-1 && REF(d) != 0) REF(d)+
 static void qad_deref(QAD *d) { if (REF(d) != (uint32_t)-1 && REF(d) != 0) REF(d)--; }
 void _ZN10QArrayData10deallocateEPS_mm(char *d, uint64_t sz, uint64_t al) { ASSERT(0, "C05: string data is static, never deallocated"); }
 char* _ZN7QStringaSERKS_(char *self, char *o) { QAD *n = qad_ref(*(QAD**)o); qad_deref(*(QAD**)self); *(QAD**)self = n; return self; }
-/* first n units equal?  n <= C05_MAXLEN */
+/* Name slots: the harness materialises a symbolic table name as a QString over one of these static blocks (separate objects:
+   header + 24 units, ref = -1 like QStringLiteral) and records the table row in the ghost field `id`. */
+struct c05slot { QAD h; uint16_t data[C05_MAXLEN]; uint32_t id; };
+#define C05_SLOT_OFF ((uint64_t)offsetof(struct c05slot, data))
+#define C05_NSLOT 8
+static struct c05slot c05_s0 = { { {{{{{ (uint32_t)-1 }}}}}, 0, 0, C05_SLOT_OFF }, {0}, 0 }; static struct c05slot c05_s1 = { { {{{{{ (uint32_t)-1 }}}}}, 0, 0, C05_SLOT_OFF }, {0}, 0 }; static struct c05slot c05_s2 = { { {{{{{ (uint32_t)-1 }}}}}, 0, 0, C05_SLOT_OFF }, {0}, 0 }; static struct c05slot c05_s3 = { { {{{{{ (uint32_t)-1 }}}}}, 0, 0, C05_SLOT_OFF }, {0}, 0 }; static struct c05slot c05_s4 = { { {{{{{ (uint32_t)-1 }}}}}, 0, 0, C05_SLOT_OFF }, {0}, 0 }; static struct c05slot c05_s5 = { { {{{{{ (uint32_t)-1 }}}}}, 0, 0, C05_SLOT_OFF }, {0}, 0 }; static struct c05slot c05_s6 = { { {{{{{ (uint32_t)-1 }}}}}, 0, 0, C05_SLOT_OFF }, {0}, 0 }; static struct c05slot c05_s7 = { { {{{{{ (uint32_t)-1 }}}}}, 0, 0, C05_SLOT_OFF }, {0}, 0 };
+static struct c05slot *c05_slot(uint32_t k) { switch (k) { case 1: return &c05_s1; case 2: return &c05_s2; case 3: return &c05_s3; case 4: return &c05_s4; case 5: return &c05_s5; case 6: return &c05_s6; case 7: return &c05_s7; } return &c05_s0; }
+char* vp_c05_slot(uint32_t k) { return (char*)c05_slot(k); }
+void vp_c05_set_id(uint32_t k, uint32_t id) { c05_slot(k)->id = id; }
+/* Comparison kernels as straight-line expressions (no loop, one symex step each): E(i): unit i is beyond the compared
+   length or equal; D(i)/S(i): unit i is within the length and differs / the sign of the difference. */
+#define E(i) ((uint32_t)((i) >= n ? 1 : (a[i] == b[i])))
+#define D(i) ((i) < n && a[i] != b[i])
+#define S(i) (a[i] < b[i] ? -1 : 1)
 static int vpl_c05_eq(const uint16_t *a, const uint16_t *b, uint64_t n) { ASSERT(n <= C05_MAXLEN, "C05: string longer than the model bound");
-  for (uint32_t i = 0; i < C05_MAXLEN; i++) { if (i >= n) break; if (a[i] != b[i]) return 0; } return 1; }
+  return (int)(E(0) & E(1) & E(2) & E(3) & E(4) & E(5) & E(6) & E(7) & E(8) & E(9) & E(10) & E(11) & E(12) & E(13) & E(14) & E(15) & E(16) & E(17) & E(18) & E(19) & E(20) & E(21) & E(22) & E(23)); }
 static int vpl_c05_cmp(const uint16_t *a, const uint16_t *b, uint64_t n) { ASSERT(n <= C05_MAXLEN, "C05: string longer than the model bound");
-  for (uint32_t i = 0; i < C05_MAXLEN; i++) { if (i >= n) break; if (a[i] != b[i]) return a[i] < b[i] ? -1 : 1; } return 0; }
+  return (D(0) ? S(0) : (D(1) ? S(1) : (D(2) ? S(2) : (D(3) ? S(3) : (D(4) ? S(4) : (D(5) ? S(5) : (D(6) ? S(6) : (D(7) ? S(7) : (D(8) ? S(8) : (D(9) ? S(9) : (D(10) ? S(10) : (D(11) ? S(11) : (D(12) ? S(12) : (D(13) ? S(13) : (D(14) ? S(14) : (D(15) ? S(15) : (D(16) ? S(16) : (D(17) ? S(17) : (D(18) ? S(18) : (D(19) ? S(19) : (D(20) ? S(20) : (D(21) ? S(21) : (D(22) ? S(22) : (D(23) ? S(23) : 0)))))))))))))))))))))))); }
+#undef E
+#undef D
+#undef S
 uint8_t _ZN9QtPrivate10startsWithE11QStringViewS0_N2Qt15CaseSensitivityE(uint64_t na, char *a, uint64_t nb, char *b, uint32_t cs) {
   ASSERT(cs == 1, "case-insensitive compare not modelled"); if (nb > na) return 0; if (nb == 0) return 1; return vpl_c05_eq((uint16_t*)a, (uint16_t*)b, nb); }
 uint32_t _ZN9QtPrivate14compareStringsE11QStringViewS0_N2Qt15CaseSensitivityE(uint64_t na, char *a, uint64_t nb, char *b, uint32_t cs) {
